@@ -197,7 +197,7 @@ theorem cms_idx_lt {w d i r : Nat} (hi : i < d) (hr : r < w) : r + i * w < w * d
   rw [Nat.mul_comm w d]; omega
 
 
-theorem zip_map_self {α β} (l : List α) (f : α → β) : l.zip (l.map f) = l.map fun k => (k, f k) := by
+theorem zip_map_self_rf {α β} (l : List α) (f : α → β) : l.zip (l.map f) = l.map fun k => (k, f k) := by
   induction l with
   | nil => rfl
   | cons a l ih => simp [ih]
@@ -288,7 +288,7 @@ theorem cbf_add_default (c : CBF) (key : Key) (hlen : c.cells.length = c.m)
     simp [Spec.bloomPositions, List.map_map, Function.comp_def]
   unfold CBF.addAlt
   rw [hidx]
-  simp only [zip_map_self]
+  simp only [zip_map_self_rf]
   obtain ⟨vals, hv⟩ := cbf_addLoop_one c.cells
     ((Spec.bloomPositions c.k c.m key.units).map fun k => (k, c.cells.getD k 0 + 1)) [] hcells (by
       intro kv hkv hgt
@@ -464,7 +464,7 @@ theorem cms_add_default (c : CMS) (key : Key) (hlen : c.bins.length = c.w * c.d)
     rintro x ⟨i, hi, rfl⟩
     have := cms_idx_lt (d := c.d) hi (Nat.mod_lt (Spec.hashI key.units i) hw)
     omega
-  simp only [hany, Bool.false_eq_true, if_false, zip_map_self]
+  simp only [hany, Bool.false_eq_true, if_false, zip_map_self_rf]
   obtain ⟨vals, hv⟩ := cms_addLoop_one c.bins _ [] (cms_idx_nodup c.w c.d hw (Spec.hashI key.units)) hbins
   rw [hv]
   simp [Gen.cmsTotalMaxCmp, Cmp.evalInt, Gen.int64Max]
